@@ -196,7 +196,8 @@ def ordering_part(ctx, rep, pred):
             o = json.loads(l)
             rep.evaluations += 1
             rep.nontrivial.add(json.dumps(o['items'], sort_keys=True))
-            ok = o['det'] and o['intok'] and not o['err']
+            # C06 also demands THE order (x-order, then name) that Ordering.tla specifies; C07 only that the text is one fixed point
+            ok = o['det'] and o['intok'] and not o['err'] and (o['conforms'] or pred != 'c06order')
             rep.count(pred + ':' + ('pass' if ok else 'fail'))
             if not o['conforms']:
                 rep.count('ordering_drift')
